@@ -35,6 +35,8 @@ Proof.
            end;
     cbn;
     rewrite ?Ha, ?He, ?Hi, ?Ho, ?Hr, ?Hp, ?Hw, ?Hm, ?Hs, ?Hy, ?Hpre, ?Hl; splits; eauto; try congruence.
+  all: destruct (poll_result _ _) as [[e out] sl]; cbn; rewrite ?Hs; cbn;
+    rewrite ?Ha, ?He, ?Hi, ?Ho, ?Hr, ?Hp, ?Hw, ?Hm, ?Hs, ?Hy, ?Hpre, ?Hl; splits; eauto; try congruence.
 Qed.
 
 Lemma final_hermetic ks : forall c, hermetic c ->
@@ -115,6 +117,7 @@ Proof.
     try reflexivity; try (destruct (read_clock _); reflexivity); try (destruct (read_rand _ _ _); reflexivity);
     try (destruct (c_stdin c); reflexivity); try lia.
   all: try (destruct (read_clock (c_wall c)); reflexivity).
+  all: destruct (poll_result _ _) as [[e out] sl]; reflexivity.
 Qed.
 
 Lemma step_mono c k : c_mono (fst (wasi_step R c k)) =
@@ -126,6 +129,7 @@ Proof.
     try (destruct (c_stdin c); reflexivity); try lia.
   all: try (destruct (read_clock (c_mono c)); reflexivity).
   all: try (unfold ClockIDRealtime, ClockIDMonotonic in *; lia).
+  all: destruct (poll_result _ _) as [[e out] sl]; reflexivity.
 Qed.
 
 Lemma ms_val : ms = 1000000. Proof. reflexivity. Qed.
@@ -184,6 +188,75 @@ Qed.
 End WithStream.
 
 (* ------------------------------------------------------------------------------------------ *)
+(* poll_oneoff: the order of the events is fixed by the order of the subscriptions               *)
+
+(* a subscription that is answered after the immediate ones: fd_read on an open descriptor *)
+Definition sub_deferred (nf : Z) (s : sub) : bool :=
+  match s with SFdRead fd _ => (0 <=? swrap 32 fd) && (swrap 32 fd <? nf) | _ => false end.
+
+(* the event written for a subscription (when the scan meets no error) *)
+Definition sub_event (nf : Z) (s : sub) : bytes :=
+  match s with
+  | SClock _ _ u => poll_event u 0 EventTypeClock
+  | SFdRead fd u => poll_event u (if swrap 32 fd <? nf then 0 else ErrnoBadf) EventTypeFdRead
+  | SFdWrite fd u => poll_event u (if swrap 32 fd <? nf then ErrnoNotsup else ErrnoBadf) EventTypeFdWrite
+  | SOther ty u => poll_event u 0 ty
+  end.
+
+Lemma poll_scan_order nf subs : forall now deferred tmo now' deferred' tmo',
+  poll_scan nf subs now deferred tmo = inr (now', deferred', tmo') ->
+  now' = now ++ map (sub_event nf) (filter (fun s => negb (sub_deferred nf s)) subs) /\
+  deferred' = deferred ++ map (sub_event nf) (filter (sub_deferred nf) subs).
+Proof.
+  induction subs as [|s r IH]; intros now deferred tmo now' deferred' tmo' H; cbn [poll_scan] in H.
+  - inversion H; subst. cbn. rewrite !app_nil_r. auto.
+  - destruct s as [t fl u|fd u|fd u|ty u]; cbv zeta in H; cbn [filter sub_deferred negb map sub_event].
+    + destruct (wrap 16 fl =? 0); [|destruct (wrap 16 fl =? 1); discriminate].
+      apply IH in H. destruct H as (H1 & H2). rewrite H1, H2, <- app_assoc. auto.
+    + destruct (swrap 32 fd <? 0) eqn:E0; [discriminate|].
+      replace (0 <=? swrap 32 fd) with true by lia. cbn [andb].
+      destruct (swrap 32 fd <? nf) eqn:E1; cbn [negb map]; apply IH in H; destruct H as (H1 & H2);
+        rewrite H1, H2, <- ?app_assoc; cbn [sub_event]; rewrite ?E1; auto.
+    + destruct (swrap 32 fd <? 0) eqn:E0; [discriminate|].
+      apply IH in H. destruct H as (H1 & H2). rewrite H1, H2, <- app_assoc. auto.
+    + discriminate.
+Qed.
+
+(* the answer of a successful poll_oneoff: the number of events, then the events of the immediately answered
+   subscriptions in subscription order, then those of the deferred ones in subscription order, then zeroes *)
+Lemma poll_events_in_subscription_order nf subs out sl :
+  poll_result nf subs = (0, out, sl) -> subs <> [] ->
+  let evs := map (sub_event nf) (filter (fun s => negb (sub_deferred nf s)) subs) ++
+             map (sub_event nf) (filter (sub_deferred nf) subs) in
+  length evs = length subs /\
+  out = le_bytes 4 (Z.of_nat (length subs)) ++ concat evs ++ repeat 0 (32 * length subs - length (concat evs))%nat.
+Proof.
+  intros H Hne. cbv zeta. unfold poll_result in H.
+  assert (H' : match poll_scan nf subs [] [] (2 ^ 63 - 1) with
+               | inl e => (e, [], 0)
+               | inr (now, deferred, tmo) =>
+                   (0, le_bytes 4 (Z.of_nat (length (now ++ deferred))) ++ concat (now ++ deferred) ++
+                       repeat 0 (32 * length subs - length (concat (now ++ deferred)))%nat,
+                    match deferred with [] => (if 0 <? tmo then tmo else 0) | _ => 0 end)
+               end = (0, out, sl)) by (destruct subs; [congruence|exact H]).
+  clear H. rename H' into H.
+  destruct (poll_scan nf subs [] [] (2 ^ 63 - 1)) as [e|[[now deferred] tmo]] eqn:E.
+  - injection H as He _ _. (* an error errno is never 0 here *)
+    exfalso. clear Hne. subst e. revert E. generalize (2 ^ 63 - 1) as t. generalize (@nil bytes) at 1 as a. generalize (@nil bytes) as b.
+    induction subs as [|s r IH]; intros b a t E; cbn [poll_scan] in E; [discriminate|].
+    destruct s as [t1 fl u|fd u|fd u|ty u]; cbv zeta in E;
+      repeat match type of E with context [if ?c then _ else _] => destruct c end;
+      try (apply IH in E; exact E); inversion E.
+  - apply poll_scan_order in E. destruct E as (E1 & E2). cbn [app] in E1, E2. subst now deferred.
+    injection H as Hout _. subst out.
+    assert (Hlen : length (map (sub_event nf) (filter (fun s => negb (sub_deferred nf s)) subs) ++
+                           map (sub_event nf) (filter (sub_deferred nf) subs)) = length subs).
+    { rewrite app_length, !map_length. clear. induction subs as [|s r IH]; [reflexivity|].
+      cbn [filter]. destruct (sub_deferred nf s); cbn [negb length]; lia. }
+    split; [exact Hlen|]. rewrite Hlen. reflexivity.
+Qed.
+
+(* ------------------------------------------------------------------------------------------ *)
 (* Examples: non-vacuity                                                                        *)
 
 Definition host_a : host_env := dummy_host.
@@ -235,3 +308,9 @@ Example interleaved :
     [(0, le_bytes 8 1640995200000000000); (0, [5; 42]); (0, le_bytes 8 1640995200001000000)] /\
   proj 1 (run_multi ex_stream [default_ctx; default_ctx] sched) = [(0, le_bytes 8 1640995200000000000); (0, [5; 42])].
 Proof. vm_compute. split; reflexivity. Qed.
+
+(* three fd_read subscriptions on the three stdio descriptors between two clocks: all five events, clocks first *)
+Example poll_three_stdio :
+  snd (wasi_step ex_stream default_ctx (Poll [SFdRead 2 12; SClock 5 0 10; SFdRead 0 11; SFdWrite 7 13; SFdRead 1 14])) =
+  (0, le_bytes 4 5 ++ poll_event 10 0 0 ++ poll_event 13 ErrnoBadf 2 ++ poll_event 12 0 1 ++ poll_event 11 0 1 ++ poll_event 14 0 1).
+Proof. vm_compute. reflexivity. Qed.
